@@ -9,6 +9,7 @@ Decides (structure only):
     frozen table;
  E4 unbounded recursion: functions that recurse over a syntax tree's children with no depth bound and no
     RecursionError handler - a deep or long expression makes the rule fail inside _safe_check_rule's swallow;
+ E6 results of helpers that may return None are tested before they are dereferenced;
  E7 every read of a linted file's bytes handles both UnicodeDecodeError and OSError.
 Not decided: termination and exit status for arbitrary bytes (E5 regex back-tracking and E6 Optional discipline are
 left to mypy/other families, see DESIGN).
@@ -144,6 +145,40 @@ def check(run, ctx):
             run.ok(E4, sym, "depth-bounded or RecursionError handled")
         else:
             run.finding(E4, sym, "unbounded-recursion", f"{fq} recurses on {rec} with no depth bound: an expression nested/chained deeper than the interpreter's recursion limit raises RecursionError, which _safe_check_rule swallows - the rule's analysis of that file is dropped without a trace in the output", f.loc)
+
+    E6 = run.rule("E6", "Optional discipline for tree lookups: a local bound to the result of a helper that may return None is tested (is None / truthiness) before an attribute of it is used", floor=12,
+                  decides="truncated or syntactically damaged files (missing bodies, missing children) do not make a rule fail internally")
+    def may_return_none(g):
+        ann = ast.unparse(g.node.returns) if g.node.returns is not None else ""
+        if "None" in ann and ann != "None":
+            return True
+        if ann in ("Any", ""):
+            return any(isinstance(n, ast.Return) and (n.value is None or (isinstance(n.value, ast.Constant) and n.value.value is None)) for n in ast.walk(g.node))
+        return False
+    for fq in rule_funcs:
+        f = repo.funcs[fq]
+        if f.parent is not None or not f.module.name.startswith(("src.linters", "src.analyzers")):
+            continue
+        for n in ast.walk(f.node):
+            if not (isinstance(n, ast.Assign) and len(n.targets) == 1 and isinstance(n.targets[0], ast.Name) and isinstance(n.value, ast.Call)):
+                continue
+            site = cg.site_at(f.module.name, n.value.lineno, n.value.col_offset)
+            if site is None:
+                continue
+            gs = [repo.funcs.get(x) for x in site["callees"]]
+            gs = [g for g in gs if g is not None]
+            if not gs or not all(may_return_none(g) for g in gs):
+                continue
+            var = n.targets[0].id
+            derefs = [x for x in ast.walk(f.node) if isinstance(x, ast.Attribute) and isinstance(x.value, ast.Name) and x.value.id == var and x.lineno > n.lineno]
+            if not derefs:
+                continue
+            guarded = any(isinstance(x, (ast.If, ast.IfExp, ast.Assert, ast.While)) and any(isinstance(y, ast.Name) and y.id == var for y in ast.walk(x.test)) for x in ast.walk(f.node)) or any(isinstance(x, ast.BoolOp) and any(isinstance(y, ast.Name) and y.id == var for y in x.values) for x in ast.walk(f.node)) or any(isinstance(x, ast.comprehension) and any(isinstance(y, ast.Name) and y.id == var for c_ in x.ifs for y in ast.walk(c_)) for x in ast.walk(f.node))
+            sym = f"{fq.replace('src.', '', 1)}:{var}"
+            if guarded:
+                run.ok(E6, sym, f"{var} = {norm(n.value)[:50]} is tested before use")
+            else:
+                run.finding(E6, fq.replace("src.", "", 1), f"unchecked-optional:{var}={norm(n.value)[:60]}", f"{fq}: `{var} = {norm(n.value)}` may be None (the helper returns None when the child is missing) but `{norm(derefs[0])}` is used without any test: on truncated or damaged source the rule raises AttributeError, which the orchestrator swallows - the file's analysis is dropped", f"{f.module.rel}:{derefs[0].lineno}")
 
     E7 = run.rule("E7", "reads of linted files reachable from rules/orchestrator handle UnicodeDecodeError and OSError", floor=3)
     lint_roots = roots + [f"{ORCH}.Orchestrator.lint_file", f"{ORCH}.FileLintContext.file_content"]
